@@ -385,7 +385,12 @@ fn doc_body(ctx: &Ctx, ch: &mut Chooser) {
   let case = Case::Doc(ch.seq());
   let doc = match guard(|| IotaDocument::from_json_value(b.tree.clone())) {
     Err(p) => return ctx.violation(&format!("IotaDocument::from_json|{}", p.key()), &p.msg, &case),
-    Ok(Err(_)) => return out("doc:input-not-a-valid-document"), // trivial early reject (id rules are C04's subject)
+    Ok(Err(e)) => {
+      if std::env::var_os("C14_DEBUG").is_some() && ch.deviations() <= 2 {
+        eprintln!("invalid {:?}: {e}", ch.labelled().iter().filter(|l| !l.contains("=0/")).collect::<Vec<_>>());
+      }
+      return out("doc:input-not-a-valid-document");
+    } // trivial early reject (id rules are C04's subject)
     Ok(Ok(d)) => d,
   };
   let target = IotaDID::parse(&b.target).expect("target DID");
@@ -459,7 +464,21 @@ fn doc_body(ctx: &Ctx, ch: &mut Chooser) {
         expect.metadata.governor_address = None;
         expect.metadata.state_controller_address = None;
         if got != expect {
-          ctx.violation("pack-unpack|same-did|document-not-equal", &format!("JSON trees agree but PartialEq does not: {}", debug_diff(&got, &expect)), &case);
+          // which part is unequal? (the normalised JSON trees agree at this point)
+          let raw_in = expect.to_json_value().expect("document to JSON");
+          let raw_out = got.to_json_value().expect("result to JSON");
+          match first_diff(&raw_in, &raw_out, &mut Vec::new()) {
+            Some(path) if path == ["doc", "controller"] => ctx.violation(
+              "pack-unpack|same-did|one-element-controller-set-becomes-single-value",
+              &format!("controller {} comes back as {}; the documents are not equal", raw_in["doc"]["controller"], raw_out["doc"]["controller"]),
+              &case,
+            ),
+            other => ctx.violation(
+              "pack-unpack|same-did|document-not-equal",
+              &format!("JSON differs at {other:?}; {}", debug_diff(&got, &expect)),
+              &case,
+            ),
+          }
         }
       } else if got.id().as_str() != b.target {
         ctx.violation("StateMetadataDocument::into_iota_document|other-did|id()-is-not-the-target", got.id().as_str(), &case);
